@@ -3,13 +3,19 @@
 MM = "matcher_mon"
 
 
-def mm(name, suite, cases, tl, shards=16, variant="chk", extra=(), timeout=None):
+def mm(name, suite, cases, tl, shards=16, variant="chk", extra=(), timeout=None, shard_base=0):
     return {
-        "name": name, "bin": MM, "variant": variant, "shards": shards,
+        "name": name, "bin": MM, "variant": variant, "shards": shards, "shard_base": shard_base,
         "args": ["--suite", suite, "--seed", "{seed}", "--shard", "{shard}", "--shards", "{shards}",
                  "--cases", str(cases), "--time-limit", str(tl), "--out", "{out}"] + list(extra),
         "timeout": timeout or (tl * 3 + 120),
     }
+
+
+def both_builds(name, suite, cases, tl, extra=()):
+    """10 shards with debug assertions + overflow checks, 6 shards of the optimized build users ship (different cases)."""
+    return [mm(name + "-chk", suite, cases, tl, shards=10, extra=extra),
+            mm(name + "-rel", suite, cases, tl, shards=6, variant="rel", extra=extra, shard_base=10)]
 
 
 def replay_matcher(suite, extra=()):
@@ -19,7 +25,8 @@ def replay_matcher(suite, extra=()):
         if len(parts) != 3:
             return []
         seed, shard, idx = parts
-        j = mm("replay", suite, 1, 600, shards=1, extra=list(extra) + ["--replay-case", idx])
+        variant = "rel" if (rj.get("job") or "").split("/")[0].endswith("-rel") else "chk"
+        j = mm("replay", suite, 1, 600, shards=1, variant=variant, extra=list(extra) + ["--replay-case", idx])
         j["args"] = [a.replace("{seed}", seed).replace("{shard}", shard) for a in j["args"]]
         return [j]
     return f
@@ -28,12 +35,11 @@ def replay_matcher(suite, extra=()):
 def match_jobs(prop, quick_cases, thorough_cases, long_quick=0, long_thorough=0):
     def jobs(tier):
         q = tier != "thorough"
-        out = [mm("match-chk", "match", quick_cases if q else thorough_cases, 25 if q else 600, extra=["--props", prop])]
+        # release build: overflow wraps instead of panicking, debug assertions are gone (both are shipped configurations)
+        out = both_builds("match", "match", quick_cases if q else thorough_cases, 25 if q else 600, extra=["--props", prop])
         n_long = long_quick if q else long_thorough
         if n_long:
-            # release build: overflow wraps instead of panicking (both are shipped configurations)
-            out.append(mm("long-rel", "match", n_long, 25 if q else 300, variant="rel", extra=["--props", prop, "--long-only", "1"]))
-            out.append(mm("match-rel", "match", (quick_cases if q else thorough_cases) // 4, 25 if q else 300, variant="rel", extra=["--props", prop]))
+            out.append(mm("long-rel", "match", n_long, 25 if q else 300, variant="rel", extra=["--props", prop, "--long-only", "1"], shard_base=16))
         return out
     return jobs
 
@@ -69,7 +75,7 @@ PROPS = {
                         "beyond 65535 either min(scheme, 65535) or step-wise saturation is accepted, a wrapped value is not"],
     },
     "C04": {
-        "jobs": lambda tier: [mm("quality", "quality", 400000 if tier != "thorough" else 6000000, 25 if tier != "thorough" else 600)],
+        "jobs": lambda tier: both_builds("quality", "quality", 400000 if tier != "thorough" else 6000000, 25 if tier != "thorough" else 600),
         "replay": replay_matcher("quality"),
         "rule": ("haystacks <= 64 chars (some up to 1500) over boundary-rich alphabets, needles <= 8 (<= 60), emphasis on path configurations; "
                  "oracles: exact DP optimum over all alignments (self-tested against literal enumeration for |haystack| <= 10) and the naive two-matrix recurrence; "
@@ -85,7 +91,7 @@ PROPS = {
         "assumptions": ["same projection as C01", "U+000B excluded"],
     },
     "C14": {
-        "jobs": lambda tier: [mm("grammar", "grammar", 1500000 if tier != "thorough" else 100000000, 25 if tier != "thorough" else 600)],
+        "jobs": lambda tier: both_builds("grammar", "grammar", 1500000 if tier != "thorough" else 100000000, 25 if tier != "thorough" else 600),
         "replay": replay_matcher("grammar"),
         "rule": ("pattern strings of length 0-12 over letters, upper case, non-ASCII (cased, uncased, folding-lowercase, title case), every kind of whitespace, "
                  "backslash and the four markers, all CaseMatching x Normalization; reference grammar + ASCII->non-ASCII substitution metamorphic check + "
@@ -95,7 +101,7 @@ PROPS = {
                         "upper case judged only where Unicode Uppercase and chars::is_upper_case agree"],
     },
     "C15": {
-        "jobs": lambda tier: [mm("compose", "compose", 300000 if tier != "thorough" else 3000000, 25 if tier != "thorough" else 600)],
+        "jobs": lambda tier: both_builds("compose", "compose", 300000 if tier != "thorough" else 3000000, 25 if tier != "thorough" else 600),
         "replay": replay_matcher("compose"),
         "rule": ("0-6 atoms of all kinds/polarities with mixed case/normalization flags, haystacks from the pattern alphabet, lists with duplicates and ties, 1-3 columns; "
                  "reference = composition atom by atom on fresh matchers; the shared matcher is dirtied by unrelated calls; distinct_nontrivial = distinct (atoms, haystack) pairs with at least one atom"),
@@ -107,6 +113,11 @@ PROPS = {
             "name": "chars", "bin": MM, "variant": "chk", "shards": 16,
             "args": ["--suite", "chars", "--seed", "{seed}", "--shard", "{shard}", "--shards", "{shards}", "--time-limit", "40" if tier != "thorough" else "1500",
                      "--sample-permille", "100" if tier != "thorough" else "1000", "--data", "{root}/data", "--out", "{out}"],
+            "timeout": 200 if tier != "thorough" else 3000,
+        }, {
+            "name": "chars-rel", "bin": MM, "variant": "rel", "shards": 4,
+            "args": ["--suite", "chars", "--seed", "{seed}", "--shard", "{shard}", "--shards", "{shards}", "--time-limit", "40" if tier != "thorough" else "1500",
+                     "--sample-permille", "30" if tier != "thorough" else "1000", "--data", "{root}/data", "--out", "{out}"],
             "timeout": 200 if tier != "thorough" else 3000,
         }] + ([] if tier != "thorough" else [{
             "name": "regen-data", "variant": "cmd", "shards": 1, "json": False, "timeout": 300,
@@ -121,7 +132,7 @@ PROPS = {
                         "NFKD decompositions are stable by Unicode policy"],
     },
     "C17": {
-        "jobs": lambda tier: [mm("strings", "strings", 300000 if tier != "thorough" else 3000000, 25 if tier != "thorough" else 600)],
+        "jobs": lambda tier: both_builds("strings", "strings", 300000 if tier != "thorough" else 3000000, 25 if tier != "thorough" else 600),
         "replay": replay_matcher("strings"),
         "rule": ("strings assembled from cluster level building blocks (base+marks, ZWJ emoji, regional indicator runs, Hangul jamo, prepend, CR/LF arrangements, "
                  "block and plane edges) plus random scalar values, 0-10 blocks; oracle = unicode-segmentation used directly; all O(n^2) ranges; "
@@ -244,7 +255,10 @@ def replay_generic(binary, mode, props=None):
                 m = known
         if binary != "boxcar_mon" and job == "nucleo-chk":
             m = "random"
-        j = bx("replay", m, "chk", 1, 1, 600, extra=["--quiet-panics", "1"]) if binary == "boxcar_mon" else wk("replay", m, "chk", 1, 1, 600, props=props)
+        if binary != "boxcar_mon" and job.startswith("model"):
+            m = "c20"
+        variant = "rel" if job.endswith("-rel") else "chk"
+        j = bx("replay", m, variant, 1, 1, 600, extra=["--quiet-panics", "1"]) if binary == "boxcar_mon" else wk("replay", m, variant, 1, 1, 600, props=props)
         j["args"] = [a.replace("{seed}", parts[0]).replace("{shard}", parts[1]) for a in j["args"]] + ["--replay-case", parts[2]]
         return [j]
     return f
@@ -355,8 +369,11 @@ def worker_jobs(prop, with_asan=False):
     def jobs(tier):
         q = tier != "thorough"
         out = [
-            wk("random-chk", "random", "chk", 10, 1000000, 25 if q else 900, props=prop),
-            wk("directed-chk", "directed", "chk", 6, 1000000, 25 if q else 900, props=prop),
+            wk("random-chk", "random", "chk", 8, 1000000, 25 if q else 900, props=prop),
+            wk("directed-chk", "directed", "chk", 5, 1000000, 25 if q else 900, props=prop),
+            # the optimized build users ship (no debug assertions, wrapping arithmetic, different timing)
+            wk("random-rel", "random", "rel", 2, 1000000, 25 if q else 900, props=prop, shard_base=8),
+            wk("directed-rel", "directed", "rel", 1, 1000000, 25 if q else 900, props=prop, shard_base=5),
         ]
         if with_asan:
             out.append(wk("random-asan", "random", "asan", 2, 1000000, 20 if q else 600, props=prop, sanitizer=True, env=ASAN_ENV))
@@ -408,7 +425,8 @@ PROPS["C19"] = {
     "assumptions": ["'completed before the call' is counted when push/extend has returned on its thread"],
 }
 PROPS["C20"] = {
-    "jobs": lambda tier: [wk("model-chk", "c20", "chk", 8, 1000000, 15 if tier != "thorough" else 600),
+    "jobs": lambda tier: [wk("model-chk", "c20", "chk", 6, 1000000, 15 if tier != "thorough" else 600),
+                          wk("model-rel", "c20", "rel", 2, 1000000, 15 if tier != "thorough" else 600, shard_base=6),
                           wk("random-chk", "random", "chk", 4, 1000000, 15 if tier != "thorough" else 600, props="C20"),
                           wk("directed-chk", "directed", "chk", 4, 1000000, 15 if tier != "thorough" else 600, props="C20")],
     "replay": replay_generic("worker_mon", "c20"),
